@@ -80,6 +80,9 @@ func stmtNames(stmts []string) []string {
 func (e repl) RunUnit(seed uint64, tier string, unit int, exec func(plan any) *core.Result) {
 	r := core.NewPRNG(core.Mix(seed, 0xC18, uint64(unit)))
 	n := 3 + r.Intn(12)
+	if r.Chance(1, 12) {
+		n = 21 + r.Intn(40) // long programs, dense in block scopes: local slot numbers reach the dozens
+	}
 	stmts := GenStatements(r.Fork(), n, true)
 	names := stmtNames(stmts)
 	total := len(stmts)
